@@ -52,7 +52,7 @@ package gzip
 //@   assert call Write 2 [C06 header-bytes] z.buf[0] == 31 && z.buf[1] == 139 && z.buf[2] == 8 && (z.Extra != nil) == (z.buf[3] & 4 != 0) && (z.Name != "") == (z.buf[3] & 8 != 0) && (z.Comment != "") == (z.buf[3] & 16 != 0) && z.buf[3] & 227 == 0 && (z.level == 9 ==> z.buf[8] == 2) && (z.level == 1 ==> z.buf[8] == 4) && (z.level != 9 && z.level != 1 ==> z.buf[8] == 0) && z.buf[9] == z.OS
 //@   assert call Write 2 [C06 header-mtime] (lastAfter ==> le32(z.buf[:], 4) == uint32(lastTimeUnix)) && (!lastAfter ==> le32(z.buf[:], 4) == 0)
 //@   ensures[C06 running-trailer] result1 == nil ==> z.size == old(z.size) + uint32(len(p)) && z.digest == lastCrc
-//@   modifies *z, **z.compressor, **z.w, extWrites, lastCrc, lastWriteErr, lastAfter, lastTimeUnix, unixCalls, lastUnixSec, lastStdResetDictNil
+//@   modifies *z, **z.compressor, **z.w, extWrites, lastCrc, lastWriteErr, lastAfter, lastTimeUnix, unixCalls, lastUnixSec, lastStdResetDictNil, lastByteErr
 //@   ensures[C16 inv] gzBase(z) && same(z.closed) && (old(gzOK(z)) ==> gzOK(z))
 //@   ensures[C14 C16 sticky-in] old(z.err) != nil ==> result0 == 0 && result1 == old(z.err) && extWrites == old(extWrites) && same(z.err)
 //@   ensures[C14 sticky-out] result1 != nil ==> z.err == result1
@@ -63,7 +63,7 @@ package gzip
 
 //@ func (*Writer).Flush
 //@   requires gzOK(z)
-//@   modifies *z, **z.compressor, **z.w, extWrites, lastCrc, lastWriteErr, lastAfter, lastTimeUnix, unixCalls, lastUnixSec, lastStdResetDictNil
+//@   modifies *z, **z.compressor, **z.w, extWrites, lastCrc, lastWriteErr, lastAfter, lastTimeUnix, unixCalls, lastUnixSec, lastStdResetDictNil, lastByteErr
 //@   ensures[C16 inv] gzOK(z)
 //@   ensures[C14 C16 sticky-in] old(z.err) != nil ==> result == old(z.err) && extWrites == old(extWrites) && same(z.err)
 //@   ensures[C14 sticky-out] result != nil ==> z.err == result
@@ -73,7 +73,7 @@ package gzip
 //@ func (*Writer).Close
 //@   requires gzOK(z)
 //@   assert call Write 2 [C06 trailer-bytes] le32(z.buf[:], 0) == z.digest && le32(z.buf[:], 4) == z.size
-//@   modifies *z, **z.compressor, **z.w, extWrites, lastCrc, lastWriteErr, lastAfter, lastTimeUnix, unixCalls, lastUnixSec, lastStdResetDictNil
+//@   modifies *z, **z.compressor, **z.w, extWrites, lastCrc, lastWriteErr, lastAfter, lastTimeUnix, unixCalls, lastUnixSec, lastStdResetDictNil, lastByteErr
 //@   ensures[C16 inv] gzOK(z)
 //@   ensures[C14 C16 sticky-in] old(z.err) != nil ==> result == old(z.err) && extWrites == old(extWrites) && same(z.err)
 //@   ensures[C14 sticky-out] result != nil ==> z.err == result
@@ -91,13 +91,14 @@ package gzip
 
 //@ func (*Reader).Read
 //@   requires grBase(z)
-//@   modifies *z, **z.decompressor, **z.r, p[*], extReads, peekErr, lastReadN, lastReadErr, rfErr, rfN, lastCrc, unixCalls, lastUnixSec, lastStdResetDictNil
+//@   modifies *z, **z.decompressor, **z.r, p[*], extReads, peekErr, lastReadN, lastReadErr, rfErr, rfN, lastCrc, unixCalls, lastUnixSec, lastStdResetDictNil, lastByteErr
 //@   ensures[C07 C08 C15 sticky] old(z.err) != nil ==> n == 0 && err == old(z.err) && extReads == old(extReads)
 //@   ensures[C07 C15 err-recorded] err != nil && err != io.EOF ==> z.err == err
 //@   ensures[C07 n-in-range] 0 <= n && n <= len(p)
 //@   ensures@6[C07 eof-checked] digest == lastCrc && !z.multistream
 //@   ensures@5[C07 mismatch-is-error] err == ErrChecksum
 //@   ensures@4[C07 C15 trailer-cut] err != io.EOF && (rfErr == io.EOF ==> err == io.ErrUnexpectedEOF) && (rfErr != io.EOF ==> err == rfErr)
+//@   ensures@6[C08 eof-sticky] z.err == io.EOF
 //@   ensures@6[C07 size-checked] size == old(z.size) + uint32(n) || size == uint32(n)
 //@   ensures@7[C07 C08 next-member] z.multistream && (err == io.EOF ==> rfN == 0 && rfErr == io.EOF)
 //@   ensures@3[C15 src-err] err != io.EOF
@@ -105,15 +106,15 @@ package gzip
 
 //@ func (*Reader).readString
 //@   requires z.r != nil && brOK(z.r)
-//@   modifies z.buf, z.digest, *z.r, extReads, lastCrc
+//@   modifies z.buf, z.digest, *z.r, extReads, lastCrc, lastByteErr
 //@   ensures brOK(z.r)
-//@   ensures[C07 C15 no-eof-here] true
+//@   ensures[C15 src-err] result1 != nil && result1 != ErrHeader ==> result1 == lastByteErr
 //@   loop 1 invariant 0 <= i && brOK(z.r)
 //@   loop 1 invariant[C06 latin1-read] forall k :: 0 <= k && k < i && k < len(z.buf) ==> z.buf[k] != 0 && (z.buf[k] > 127 ==> needConv)
 
 //@ func (*Reader).readHeader
 //@   requires z.r != nil && brOK(z.r) && (typeis(z.decompressor, *github.com/intel/fastgo/compress/flate.decompressor) ==> ((z.decompressor.(*github.com/intel/fastgo/compress/flate.decompressor).rBuf != nil ==> brOK(z.decompressor.(*github.com/intel/fastgo/compress/flate.decompressor).rBuf)) && tabsOK(&z.decompressor.(*github.com/intel/fastgo/compress/flate.decompressor).state)))
-//@   modifies z.buf, z.digest, z.decompressor, **z.decompressor, **z.r, extReads, peekErr, rfErr, rfN, lastCrc, lastReadN, lastReadErr, unixCalls, lastUnixSec, lastStdResetDictNil
+//@   modifies z.buf, z.digest, z.decompressor, **z.decompressor, **z.r, extReads, peekErr, rfErr, rfN, lastCrc, lastReadN, lastReadErr, unixCalls, lastUnixSec, lastStdResetDictNil, lastByteErr
 //@   ensures brOK(z.r) && same(z.r)
 //@   ensures[C13] err == nil ==> z.decompressor != nil && (typeis(z.decompressor, *github.com/intel/fastgo/compress/flate.decompressor) ==> rdFresh(z.decompressor.(*github.com/intel/fastgo/compress/flate.decompressor)) && z.decompressor.(*github.com/intel/fastgo/compress/flate.decompressor).rBuf == z.r)
 //@   ensures[C08] err == io.EOF ==> lastCrc == old(lastCrc) && rfN == 0
@@ -127,13 +128,13 @@ package gzip
 //@ func (*Reader).Reset
 //@   requires typeis(r, *bufio.Reader) ==> brOK(r.(*bufio.Reader))
 //@   requires typeis(z.decompressor, *github.com/intel/fastgo/compress/flate.decompressor) ==> ((z.decompressor.(*github.com/intel/fastgo/compress/flate.decompressor).rBuf != nil ==> brOK(z.decompressor.(*github.com/intel/fastgo/compress/flate.decompressor).rBuf)) && tabsOK(&z.decompressor.(*github.com/intel/fastgo/compress/flate.decompressor).state))
-//@   modifies *z, **z.decompressor, **r, extReads, peekErr, rfErr, rfN, lastCrc, lastReadN, lastReadErr, unixCalls, lastUnixSec, lastStdResetDictNil
+//@   modifies *z, **z.decompressor, **r, extReads, peekErr, rfErr, rfN, lastCrc, lastReadN, lastReadErr, unixCalls, lastUnixSec, lastStdResetDictNil, lastByteErr
 //@   ensures[C13 fresh] result == nil ==> grBase(z) && z.err == nil && z.multistream && z.size == 0 && z.digest == 0
 //@   ensures[C13 C15] z.err == result
 //@   ensures[C05 C08 C13 src] typeis(r, *bufio.Reader) ==> z.r == r.(*bufio.Reader)
 
 //@ func NewReader
 //@   requires typeis(r, *bufio.Reader) ==> brOK(r.(*bufio.Reader))
-//@   modifies **r, extReads, peekErr, rfErr, rfN, lastCrc, lastReadN, lastReadErr, unixCalls, lastUnixSec, lastStdResetDictNil
+//@   modifies **r, extReads, peekErr, rfErr, rfN, lastCrc, lastReadN, lastReadErr, unixCalls, lastUnixSec, lastStdResetDictNil, lastByteErr
 //@   ensures[C13 fresh] result1 == nil ==> result0 != nil && grBase(result0) && result0.err == nil && result0.multistream && result0.size == 0 && result0.digest == 0
 //@   ensures[C05 C08 src] result1 == nil && typeis(r, *bufio.Reader) ==> result0.r == r.(*bufio.Reader)
